@@ -934,7 +934,7 @@ func (f *Field) SetBit(rowID, colID uint64, t *time.Time) (changed bool, err err
 func (f *Field) ClearBit(rowID, colID uint64) (changed bool, err error) {
 	// Clear non-time bit. A time field created with noStandardView has no
 	// standard view; its time views still hold the bit.
-	if view, present := f.viewMap[viewStandard]; present {
+	if view := f.view(viewStandard); view != nil {
 		if v, err := view.clearBit(rowID, colID); err != nil {
 			return changed, errors.Wrap(err, "clearing on view")
 		} else if v {
@@ -977,17 +977,15 @@ func groupCompare(a, b string, offset int) (lt, eq bool) {
 }
 
 func (f *Field) allTimeViewsSortedByQuantum() (me []*view) {
-	me = make([]*view, len(f.viewMap))
 	prefix := viewStandard + "_"
 	offset := len(viewStandard) + 1
-	i := 0
-	for _, v := range f.viewMap {
+	// views() reads the view map under the field lock: a Set with a
+	// timestamp may be creating a view at this moment.
+	for _, v := range f.views() {
 		if len(v.name) > offset && strings.Compare(v.name[:offset], prefix) == 0 { // skip non-time views
-			me[i] = v
-			i++
+			me = append(me, v)
 		}
 	}
-	me = me[:i]
 	if len(me) == 0 { // no time views
 		return me
 	}
